@@ -54,6 +54,7 @@ type FuncContract struct {
 	Effects    []*Clause // crash invariants
 	OnSpawn    []*Clause // ensures assumed by the spawner at `go f()`
 	Modifies   []string
+	GhostSets  []GhostSet // ghost assignments executed at every return (before the postconditions are checked)
 	Mutates    []string // slice parameters whose backing array the callee changes in place (externs only)
 	SpawnMods  []string
 	NoReturn   bool
@@ -68,6 +69,12 @@ type FuncContract struct {
 	Replay     []string // replay template lines
 	Used       bool
 	ifaceRecv  types.Type
+}
+
+type GhostSet struct {
+	Var string
+	Src string
+	E   Expr
 }
 
 type GhostVar struct {
@@ -299,6 +306,19 @@ func (cs *ContractSet) parseFile(path, pkgPath string) error {
 		}
 		switch word {
 		case "ghost":
+			if cur != nil && strings.HasPrefix(rest, "set ") {
+				body := strings.TrimSpace(rest[4:])
+				i := strings.Index(body, "=")
+				if i < 0 {
+					return errf("ghost set needs '='")
+				}
+				e, err := parseExpr(strings.TrimSpace(body[i+1:]))
+				if err != nil {
+					return errf("%v", err)
+				}
+				cur.GhostSets = append(cur.GhostSets, GhostSet{Var: strings.TrimSpace(body[:i]), Src: body, E: e})
+				continue
+			}
 			cur = nil
 			if strings.HasPrefix(rest, "var ") {
 				fs := strings.Fields(rest[4:])
